@@ -226,6 +226,10 @@ func main() {
 			if raw {
 				stream = "ci-raw"
 			}
+			if i%10 == 7 {
+				cs.Skip = true
+				stream = "ci-skip-endpoints"
+			}
 			c.Case(sig(cs), len(hist) >= 2, fmt.Sprintf("%s len=%02d", stream, len(hist)), func() interface{} {
 				return map[string]interface{}{"mode": "ci", "versions": len(hist), "varied": labels}
 			})
